@@ -167,6 +167,15 @@ pub fn my_decompress(packed: &[BigUint]) -> Option<Vec<BigUint>> {
     (out.len() == n).then_some(out)
 }
 
+/// (values per packed felt, unpacked length) of a compressed felt vector.
+pub fn packing_shape(packed: &[BigUint]) -> Option<(usize, usize)> {
+    use num_traits::ToPrimitive;
+    let code_size = packed.first()?.to_usize()?;
+    let padding = packed.get(1)?.to_usize()?;
+    let n = packed.get(2 + code_size)?.to_usize()?;
+    Some((words_per_felt(code_size + padding), n))
+}
+
 fn felt_values(v: &BigUint, len: usize) -> Vec<BigUint> {
     let p = BigUint::parse_bytes(b"800000000000011000000000000000000000000000000000000000000000001", 16).unwrap();
     let mut out: Vec<BigUint> = vec![
